@@ -390,7 +390,7 @@ impl FileSpec {
     }
 
     // the file name without ".gz" and without the configured suffix
-    fn name_without_suffix(&self, path: &Path) -> String {
+    pub(crate) fn name_without_suffix(&self, path: &Path) -> String {
         let mut name = path
             .file_name()
             .map(|f| f.to_string_lossy().to_string())
